@@ -73,15 +73,16 @@ func C15_Run(job string) {
 			v.Cover("form")
 			v.Assert(chosen == "form", "C15:form-media-type-not-dispatched-to-form")
 		default:
-			// spellings that differ only in case/spaces are left unconstrained; a media type that
-			// cannot be either one (empty, or not starting with a/A or a blank) must read the query
-			if len(mt) == 0 {
-				v.Assert(chosen == "query", "C15:other-media-types-must-read-the-query")
-			} else {
-				c0 := mt[0]
-				amb := v.Or(v.Or(c0 == 'a', c0 == 'A'), v.Or(c0 == ' ', c0 == '\t'))
-				v.Assert(v.Or(amb, chosen == "query"), "C15:other-media-types-must-read-the-query")
+			// spellings that differ from the canonical one only in case or blanks are left
+			// unconstrained: the oracle speaks only when the media type contains neither a blank nor
+			// an upper-case letter, i.e. is already normalised; then "neither json nor form" is exact
+			amb := 0
+			for i := 0; i < n; i++ {
+				c := ct[i]
+				isAmb := v.B2I(c == ' ') | v.B2I(c == '\t') | (v.B2I(c >= 'A') & v.B2I(c <= 'Z'))
+				amb |= isAmb & v.B2I(i < semi)
 			}
+			v.Assert(v.Or(amb == 1, chosen == "query"), "C15:other-media-types-must-read-the-query")
 		}
 	case "dispatch-real":
 		// the real parsers, sentinel values in body / form / query tell which source was read
@@ -160,7 +161,9 @@ func C15_Run(job string) {
 			{"name=n", nil, true, "n"},
 			{"tags=&name=", nil, true, ""},
 			{"", nil, true, ""},
-			{"name=n&other[]=x", nil, true, "n"}, // a []-named parameter that is missing is absent too
+			{"name=n&other[]=x", nil, true, "n"},         // a []-named parameter that is missing is absent too
+			{"tags[]=&name=n", []string{""}, false, "n"}, // a []-named parameter is a list even with one blank value
+			{"tags[]=%20", []string{""}, false, ""},      // one (blank, hence absent and unwritten) element
 		}
 		c := cases[v.Choice("case", len(cases))]
 		key := "tags"
